@@ -210,6 +210,12 @@ def run(ctx):
     for pair in (pairs[:3] if ctx.quick else pairs):
         for cl in classes:
             jobs.append({"kind": "failed", "pair": pair, "class": cl, "name": "failed-%s-%s" % (pair, cl)})
+    frozen = vf.hkv(["frozen-pairs"]).split()
+    if len(frozen) < 10:
+        raise vf.Infra("frozen-settings catalogue is empty")
+    for pair in frozen:
+        jobs.append({"kind": "frozen", "pair": pair, "name": "frozen-" + pair})
+    ctx.count("frozen_setting_reloads", len(frozen))
     for sc in ("post_write_validation_fails", "reload_refused"):
         jobs.append({"kind": "rollback", "scenario": sc, "name": "rollback-" + sc})
     # --- execute in parallel processes (gates are process-global)
@@ -248,6 +254,9 @@ def run(ctx):
         if r["error"]:
             raise vf.Infra("ReloadTrace error: %s\n%s" % (r["error"], r.get("out_tail", "")))
         events = vf.load_trace(r["file"])
+        for e in events:
+            if e.get("ev") == "FrozenReload" and e["old"] == e["new"]:
+                raise vf.Infra("frozen pair %s does not tell old from new: %s" % (e["pair"], e["old"]))
         fails = list(r["fails"])
         if r["matched"] < r["total"]:
             fails.append((r["matched"] + 1, events[r["matched"]].get("ev", "?"), "rejected"))
@@ -261,7 +270,7 @@ def run(ctx):
                 sig = "L1/reload/%s/%s/%s" % (ev, check, e.get("pair", e.get("scenario", e.get("mode", ""))) + ("/" + e["class"] if "class" in e else ""))
             seen.setdefault(sig, e)
     for sig, e in sorted(seen.items()):
-        if e["ev"] in ("Probe", "Settled", "FailedReload", "Rollback"):
+        if e["ev"] in ("Probe", "Settled", "FailedReload", "FrozenReload", "Rollback"):
             # reproduce: run the same job once more
             job = None
             for j in jobs:
@@ -269,6 +278,9 @@ def run(ctx):
                     job = j
                     break
                 if e["ev"] == "FailedReload" and j["kind"] == "failed" and j["pair"] == e["pair"] and j["class"] == e["class"]:
+                    job = j
+                    break
+                if e["ev"] == "FrozenReload" and j["kind"] == "frozen" and j["pair"] == e["pair"]:
                     job = j
                     break
                 if e["ev"] == "Rollback" and j["kind"] == "rollback" and j["scenario"] == e["scenario"]:
